@@ -22,6 +22,7 @@ from __future__ import annotations
 import hashlib
 import json
 import os
+import shutil
 import subprocess
 import sys
 import time
@@ -117,10 +118,12 @@ class Campaign:
                     self.buckets[sig][1] = detail
 
     def run_one(self, case):
-        try:
-            res = self.mod.run_case(case)
-        except HarnessError:
-            raise
+        cur = os.environ.get("VERIF_CUR_CASE_FILE")
+        if cur:
+            # crash attribution: if the code under test aborts / segfaults, the parent finds the case here
+            with open(cur, "w") as f:
+                f.write(canon(case))
+        res = self.mod.run_case(case)
         self.record(case, res)
         return res
 
@@ -202,7 +205,12 @@ def _shrink(mod, case, sig, budget_s):
     improved = True
     while improved and time.time() < t_end:
         improved = False
-        for cand in gen(cur):
+        try:
+            cands = list(gen(cur))
+        except Exception:
+            # a candidate generator that cannot handle this case (e.g. a fuzz input) just means "not shrunk"
+            return cur
+        for cand in cands:
             if time.time() >= t_end:
                 break
             if canon(cand) == canon(cur):
@@ -291,7 +299,7 @@ def finish(mod, camp):
                 known_seen.append(k["id"])
                 lines.append("KNOWN-FINDING: property=%s %s [%s]" % (mod.PID, k.get("what", ""), k["id"]))
             continue
-        small = _shrink(mod, case, sig, shrink_budget)
+        small = case if sig.startswith("process-crash") else _shrink(mod, case, sig, shrink_budget)
         if small is not case:
             try:
                 for s2, d2 in mod.run_case(small).failures:
@@ -338,6 +346,16 @@ def finish(mod, camp):
 
 
 def replay(mod, path):
+    """Replay in a child process so that a crash of the code under test is reported, not suffered."""
+    r = subprocess.run([sys.executable, os.path.join(VERIF, "check"), mod.PID, "--replay-inproc", path])
+    if r.returncode < 0 or r.returncode > 2:
+        print("VIOLATION property=%s replay=%s" % (mod.PID, path))
+        print("  signature=process-crash detail=the process replaying the case died with status %d" % r.returncode)
+        return 1
+    return r.returncode
+
+
+def replay_inproc(mod, path):
     with open(path) as f:
         obj = json.load(f)
     case = obj["case"] if isinstance(obj, dict) and "case" in obj else obj
@@ -362,6 +380,7 @@ def main(mod, argv):
     seed = int(os.environ.get("VERIF_SEED", "1") or "1")
     shard = None
     out = None
+    directed = False
     args = list(argv)
     while args:
         a = args.pop(0)
@@ -369,6 +388,10 @@ def main(mod, argv):
             tier = a
         elif a == "--replay":
             return replay(mod, args.pop(0))
+        elif a == "--replay-inproc":
+            return replay_inproc(mod, args.pop(0))
+        elif a == "--directed":
+            directed = True
         elif a == "--shard":
             shard = int(args.pop(0))
         elif a == "--out":
@@ -379,25 +402,20 @@ def main(mod, argv):
     b = mod.budget(tier)
     try:
         if shard is not None:
-            # worker: one shard of a thorough run, results to a JSON file
-            _hypothesis_search(mod, camp, tier, seed * 1000 + shard, b["examples"])
+            # worker process: corpus + directed cases (first worker only), then one shard of the search
+            if directed:
+                for case in _corpus(mod) + list(getattr(mod, "directed_cases", lambda t: [])(tier)):
+                    camp.run_one(case)
+            _hypothesis_search(mod, camp, tier, seed * 1000 + shard if b.get("shards", 1) > 1 else seed, b["examples"])
             ex = getattr(mod, "extra_shard", None)
             if ex:
                 ex(tier, seed, shard, b.get("shards", 1), camp)
             with open(out, "w") as f:
                 json.dump(camp.export(), f, default=str)
             return 0
-        # corpus + directed cases first
-        for case in _corpus(mod) + list(getattr(mod, "directed_cases", lambda t: [])(tier)):
-            camp.run_one(case)
-        shards = b.get("shards", 1)
-        if shards <= 1:
-            _hypothesis_search(mod, camp, tier, seed, b["examples"])
-            ex = getattr(mod, "extra_shard", None)
-            if ex:
-                ex(tier, seed, 0, 1, camp)
-        else:
-            _run_shards(mod, camp, tier, seed, shards)
+        # every case runs in a worker process: the code under test is a C extension, and an assert() / segfault in
+        # it must become a reported failure of that case, not the death of the check
+        _run_shards(mod, camp, tier, seed, max(1, b.get("shards", 1)))
         ex = getattr(mod, "extra", None)
         if ex:
             ex(tier, seed, camp)
@@ -426,37 +444,55 @@ def _corpus(mod):
 def _run_shards(mod, camp, tier, seed, shards):
     tmpd = os.path.join(VERIF, ".build", "shards", "%s-%d" % (mod.PID, os.getpid()))
     os.makedirs(tmpd, exist_ok=True)
-    procs = []
     env = dict(os.environ)
     env["VERIF_TIER"] = tier
     maxpar = int(os.environ.get("VERIF_JOBS", "16"))
-    pending = list(range(shards))
+    pending = [(i, 0) for i in range(shards)]  # (shard, attempt)
     running = []
     errs = []
     while pending or running:
         while pending and len(running) < maxpar:
-            i = pending.pop(0)
+            i, attempt = pending.pop(0)
             out = os.path.join(tmpd, "shard%d.json" % i)
-            p = subprocess.Popen(
-                [sys.executable, os.path.join(VERIF, "check"), mod.PID, tier, "--seed", str(seed),
-                 "--shard", str(i), "--out", out],
-                env=env, stdout=subprocess.PIPE, stderr=subprocess.STDOUT, text=True)
-            running.append((i, p, out))
-        time.sleep(0.2)
+            cur = os.path.join(tmpd, "cur%d.json" % i)
+            for f in (out, cur):
+                if os.path.exists(f):
+                    os.unlink(f)
+            e2 = dict(env, VERIF_CUR_CASE_FILE=cur)
+            cmd = [sys.executable, os.path.join(VERIF, "check"), mod.PID, tier, "--seed", str(seed + 7919 * attempt),
+                   "--shard", str(i), "--out", out]
+            if i == 0 and attempt == 0:
+                cmd.append("--directed")
+            p = subprocess.Popen(cmd, env=e2, stdout=subprocess.PIPE, stderr=subprocess.STDOUT, text=True)
+            running.append((i, attempt, p, out, cur))
+        time.sleep(0.1)
         for ent in list(running):
-            i, p, out = ent
-            if p.poll() is not None:
-                running.remove(ent)
-                txt = p.stdout.read()
-                if p.returncode != 0 or not os.path.exists(out):
-                    errs.append("shard %d rc=%s\n%s" % (i, p.returncode, txt[-3000:]))
-                else:
-                    with open(out) as f:
-                        camp.merge(json.load(f))
-                    os.unlink(out)
-    try:
-        os.rmdir(tmpd)
-    except OSError:
-        pass
+            i, attempt, p, out, cur = ent
+            if p.poll() is None:
+                continue
+            running.remove(ent)
+            txt = p.stdout.read()
+            if p.returncode == 0 and os.path.exists(out):
+                with open(out) as f:
+                    camp.merge(json.load(f))
+                os.unlink(out)
+                continue
+            if (p.returncode < 0 or p.returncode in (134, 139)) and os.path.exists(cur):
+                # the worker was killed by a signal (abort / segfault in the code under test): that case failed
+                try:
+                    with open(cur) as f:
+                        case = json.loads(f.read())
+                except Exception:
+                    case = None
+                if case is not None:
+                    r = Result()
+                    r.fail("process-crash:signal%d" % abs(p.returncode if p.returncode < 0 else p.returncode - 128),
+                           "the process running this case died (status %d); last output: %s" % (p.returncode, txt[-400:]))
+                    camp.record(case, r)
+                    if attempt < 2:
+                        pending.append((i, attempt + 1))  # keep exploring with another seed
+                    continue
+            errs.append("shard %d rc=%s\n%s" % (i, p.returncode, txt[-3000:]))
+    shutil.rmtree(tmpd, ignore_errors=True)
     if errs:
         raise HarnessError("shard failures:\n" + "\n".join(errs))
